@@ -121,8 +121,10 @@ def rand_syntenies(rng, n, nfam, consistent=None, unordered=False):
 
 
 def rand_case(rng, max_o=5, max_s=5, nfam=0, plain=True, unordered=False, style=None, costs=None):
-    ns = rng.randint(1, max_s)
-    no = rng.randint(1, max_o)
+    # sizes weighted towards the top of the range (weight = size): half of a uniform draw would go to 1- and
+    # 2-leaf object trees, which have no table recursion and no ties between placements
+    ns = rng.choices(range(1, max_s + 1), weights=range(1, max_s + 1))[0]
+    no = rng.choices(range(1, max_o + 1), weights=range(1, max_o + 1))[0]
     S = rand_shape(rng, ns, style)
     oshape = rand_shape(rng, no, rng.choice([None, None, "cat", "bal"]))
     sps = rand_species_assignment(rng, S, no)
